@@ -238,6 +238,15 @@ class NumpyModel:
         if isinstance(base, dict):
             if name == "get":
                 k = _h(args[0])
+                if k not in base:
+                    from .interp import _key_match
+                    cands = [kk for kk in base if isinstance(_key_match(kk, k), Guard)]
+                    if cands:
+                        # data-dependent hit or miss: the stored value when the data-dependent parts of the key coincide, else the default
+                        from .values import Phi
+                        m = _key_match(cands[-1], k)
+                        dflt = args[1] if len(args) > 1 else kwargs.get("default")
+                        return I.select_value(m, base[cands[-1]], dflt, None, node)
                 return base.get(k, args[1] if len(args) > 1 else kwargs.get("default"))
             if name == "items":
                 return [(k, v) for k, v in base.items()]
